@@ -3,6 +3,7 @@ package props
 import (
 	"fmt"
 	"image"
+	"image/color"
 	"math"
 
 	"github.com/reactivego/ivg"
@@ -297,6 +298,19 @@ func compareRaster(a, b []world.RastOp, mode int, regsExact bool, vb ivg.ViewBox
 	return ""
 }
 
+// hiResRelay stands in front of a relaying Encoder and switches
+// high-resolution mode on as soon as the decoder has reset it (Reset clears
+// the flag).
+type hiResRelay struct {
+	ivg.Destination
+	e *encode.Encoder
+}
+
+func (h *hiResRelay) Reset(vb ivg.ViewBox, pal [64]color.RGBA) {
+	h.Destination.Reset(vb, pal)
+	h.e.HighResolutionCoordinates = true
+}
+
 func c07Run(ctx *Ctx, t *tape.Tape) *report.Violation {
 	st := ctx.Stats
 	tp := c07Topology{
@@ -517,6 +531,54 @@ func c07Run(ctx *Ctx, t *tape.Tape) *report.Violation {
 	}
 	if diff != "" && st != nil {
 		st.Add("runs_where_call_logs_differ_but_rendering_agrees", 1)
+	}
+	// A relay: the decoder is itself a producer of Destination calls, and what
+	// it delivers for a well-formed program is a well-formed call sequence. It
+	// is fed into a second Encoder (a transcoding proxy; high-resolution mode
+	// on, so that nothing is quantised a second time) next to the Renderer r2
+	// that the same decoder fed the same calls: the selectors of the two must
+	// agree, the Encoder must accept the sequence, and where the first trip
+	// carried every number exactly, the picture after the second trip must be
+	// bit for bit the direct one.
+	{
+		var e2 encode.Encoder
+		var rerr error
+		if p, _, msg := guard(func() { rerr = decode.Decode(&hiResRelay{Destination: &e2, e: &e2}, final) }); p {
+			_ = msg
+			return skip("relaying into a second Encoder")
+		}
+		if rerr == nil {
+			b2, err2 := e2.Bytes()
+			if err2 != nil {
+				return fail(viol("C07", "pipeline", "an Encoder fed by the decoder with the calls of a well-formed program (a relay) reports %v", err2))
+			}
+			if ec, en, rc, rn := e2.CSel()&63, e2.NSel()&63, r2.CSel()&63, r2.NSel()&63; ec != rc || en != rn {
+				return fail(viol("C07", "sel-lockstep", "at the end of the decoded call sequence the relaying Encoder reports CSEL=%d NSEL=%d, the Renderer fed the same calls by the same decoder reports CSEL=%d NSEL=%d", ec, en, rc, rn))
+			}
+			if mode == 0 && !regInexact && !vbInexact {
+				z3 := &world.RecRaster{}
+				var r3 render.Renderer
+				r3.SetRasterizer(z3, tp.rect)
+				var d3err error
+				second := append([]byte(nil), b2...)
+				if p, _, msg := guard(func() { d3err = decode.Decode(&r3, second) }); p {
+					_ = msg
+					return skip("decoding the relayed stream")
+				}
+				if d3err != nil {
+					return fail(viol("C07", "pipeline", "the bytes written by a relaying Encoder for the decoded calls of a well-formed program do not decode: %v", d3err))
+				}
+				if d := compareRaster(z1.Ops, z3.Ops, 0, true, vb, tp.rect, maxAbs); d != "" {
+					return fail(viol("C07", "pipeline", "every number of this program was carried exactly by the first trip through the byte channel, yet after a second trip (decoder -> Encoder -> decoder -> Renderer) rendering differs from direct rendering: %s", d))
+				}
+				if st != nil {
+					st.Add("relay_second_trip_compared_bit_exact", 1)
+				}
+			}
+			if st != nil {
+				st.Add("relay_runs", 1)
+			}
+		}
 	}
 	ctx.Fold(fnvAdd(fnv(final), uint64(len(z1.Ops))))
 	if st != nil {
